@@ -5,6 +5,7 @@ pub mod c04;
 pub mod c05;
 pub mod c06;
 pub mod c07;
+pub mod c08;
 pub mod c09;
 pub mod c10;
 pub mod c11;
@@ -17,7 +18,7 @@ pub mod common;
 use crate::engine::*;
 use crate::sim::scenario::Scenario;
 
-pub const ALL: &[&str] = &["C01", "C02", "C03", "C04", "C05", "C06", "C07", "C09", "C10", "C11", "C12", "C13", "C14"];
+pub const ALL: &[&str] = &["C01", "C02", "C03", "C04", "C05", "C06", "C07", "C08", "C09", "C10", "C11", "C12", "C13", "C14"];
 
 pub fn run_prop(ctx: &Ctx) -> Option<PropReport> {
     Some(match ctx.prop {
@@ -28,6 +29,7 @@ pub fn run_prop(ctx: &Ctx) -> Option<PropReport> {
         "C05" => c05::run_prop(ctx),
         "C06" => c06::run_prop(ctx),
         "C07" => c07::run_prop(ctx),
+        "C08" => c08::run_prop(ctx),
         "C09" => c09::run_prop(ctx),
         "C10" => c10::run_prop(ctx),
         "C11" => c11::run_prop(ctx),
@@ -51,6 +53,7 @@ pub fn replay(prop: &str, part: &str, case: &serde_json::Value) -> Option<CaseRe
         ("C05", _) => c05::eval(&sc()?),
         ("C06", _) => c06::eval(&sc()?),
         ("C07", _) => c07::eval(&sc()?),
+        ("C08", _) => c08::eval(&sc()?),
         ("C09", "detection") => c09::eval_detect(&sc()?),
         ("C09", _) => c09::eval_false_alarm(&sc()?),
         ("C10", _) => c10::eval(&sc()?),
